@@ -102,6 +102,8 @@ structure SpSt where
   /-- names of Data that may be cached -/
   cached : List Name := []
   usedNonce : List (Name × Nat) := []
+  /-- when (name, nonce) first became a possible dead-nonce-list key -/
+  firstSeen : List (Name × Nat × Time) := []
   lastPit : Nat := 0
   lastCs : Nat := 0
 
@@ -255,6 +257,8 @@ def onInterest (sp : SpSt) (f : FaceId) (i : Interest) (obs : List Obs) (pit cs 
      else [])
   -- ---------------------------------------------------------------- ledger update
   let sp1 := { sp with usedNonce := if i.nonce.isSome then (i.name, nonce) :: sp.usedNonce else sp.usedNonce,
+                       firstSeen := if i.nonce.isSome && !(sp.firstSeen.any fun x => x.1 == i.name && x.2.1 == nonce)
+                                    then (i.name, nonce, sp.now) :: sp.firstSeen else sp.firstSeen,
                        lastPit := pit, lastCs := cs }
   if droppedSure then (sp1, fails)
   else
@@ -281,7 +285,15 @@ def onInterest (sp : SpSt) (f : FaceId) (i : Interest) (obs : List Obs) (pit cs 
     let dead := match old with
       | some p =>
         match p.nonces with
-        | [x] => if processed && dsends.isEmpty && p.certain sp.now then (i.name, x, sp.now + sp.dnlLife) :: sp1.dead else sp1.dead
+        | [x] =>
+          /- Insert is a no-op while an older record of the same key is still listed, and that one may
+             have been made any time since the key first became possible: the record is certain only
+             until firstSeen + lifetime -/
+          let t0 := match sp.firstSeen.find? (fun y => y.1 == i.name && y.2.1 == x) with
+            | some y => y.2.2
+            | none => sp.now
+          if processed && dsends.isEmpty && p.certain sp.now && sp.now < t0 + sp.dnlLife
+          then (i.name, x, t0 + sp.dnlLife) :: sp1.dead else sp1.dead
         | _ => sp1.dead
       | none => sp1.dead
     let outs := isends.foldl (fun acc o => ⟨key, o.face, nonce, sp.now⟩ :: acc.filter (fun x => !(x.key == key && x.face == o.face))) sp1.outs
@@ -372,6 +384,7 @@ def onData (sp : SpSt) (f : FaceId) (d : Data) (tk : STok) (obs : List Obs) (pit
        may from now on be dead under the Data's name -/
     let nonces := (sp.usedNonce.map (·.2)).eraseDups
     let used := nonces.foldl (fun acc n => if acc.contains (d.name, n) then acc else (d.name, n) :: acc) sp.usedNonce
-    ({ sp0 with pends := pends, outs := outs, cached := cached, usedNonce := used }, fails)
+    let seen := nonces.foldl (fun acc n => if acc.any (fun x => x.1 == d.name && x.2.1 == n) then acc else (d.name, n, sp.now) :: acc) sp.firstSeen
+    ({ sp0 with pends := pends, outs := outs, cached := cached, usedNonce := used, firstSeen := seen }, fails)
 
 end Ndn.Fw.Spec
